@@ -34,9 +34,8 @@ CaseOfCall(k) ==
       doc |-> Docs[c.di].doc, vars |-> VarsT[c.vi].vars, silent |-> c.silent, useTZ |-> c.useTZ, zone |-> c.zone]
 OutOf(id) == [e |-> DecodeEntry(Outs[id].o), txt |-> Outs[id].txt]
 
-RECURSIVE MaxG(_, _)
-MaxG(i, m) == IF i > Len(Ev) THEN m ELSE MaxG(i + 1, IF Ev[i].g > m THEN Ev[i].g ELSE m)
-Gs == 0..MaxG(1, 0)
+Gs == 0..64          \* goroutine ids the driver may use (0 = the driver itself); no recursion over the trace:
+                     \* deep recursion makes TLC quadratic (every collection scans the whole Java stack)
 
 VARIABLES l, pc          \* pc[g] = the call g is inside, 0 = none
 Init == l = 1 /\ pc = [g \in Gs |-> 0]
